@@ -3,7 +3,7 @@ use crate::{
     inc_bimap::IncBiMap,
     offset::SerializeSubset,
     serialize::{SerializeErrorFlags, Serializer},
-    Plan, SubsetTable,
+    Plan, Serialize, SubsetTable,
 };
 use fnv::FnvHashMap;
 use write_fonts::{
@@ -474,6 +474,19 @@ impl<'a> SubsetTable<'a> for DeltaSetIndexMap<'a> {
     fn subset(
         &self,
         _plan: &Plan,
+        s: &mut Serializer,
+        index_map_subset_plan: &'a DeltaSetIndexMapSerializePlan<'a>,
+    ) -> Result<(), SerializeErrorFlags> {
+        Self::serialize(s, index_map_subset_plan)
+    }
+}
+
+// The output map is fully described by the serialize plan: no source table is needed
+// (HVAR/VVAR without an advance mapping still get an explicit one in the subset).
+impl<'a> Serialize<'a> for DeltaSetIndexMap<'a> {
+    type Args = &'a DeltaSetIndexMapSerializePlan<'a>;
+
+    fn serialize(
         s: &mut Serializer,
         index_map_subset_plan: &'a DeltaSetIndexMapSerializePlan<'a>,
     ) -> Result<(), SerializeErrorFlags> {
